@@ -193,7 +193,7 @@ def gen_steal_scenario(rng, ns, layout=None, chunk=None):
         main["ops"].append("a%d" % t)
     if layout is None:
         n_s = rng.range(6, 14)
-        n_u = rng.choice([1, 1, 1, 2])
+        n_u = rng.choice([1, 1, 2, 2, 3])
         cells = ["S"] * n_s
         for _ in range(n_u):
             cells.insert(rng.range(2, len(cells) - 2) if rng.chance(4, 5) else rng.range(0, len(cells)), "U")
@@ -503,6 +503,11 @@ def run(ctx):
             scenarios.append(sc)
     # steal across unstealable nodes (two or more runs of stolen nodes), 2x1 and 3x1, all chunk settings
     r = rng.fork()
+    # always run: one steal that gathers THREE or more separate runs of stealable nodes (two or more pinned nodes in
+    # between, a middle run of length 1 and of length 2): the stolen list is spliced run by run, and a slip in that
+    # splicing loses a whole run of spawned tasks (independent changes C08-3, C04-4, C08-4)
+    for lay, chk in (("SUSUSSSS", 0), ("SUSSUSSSSS", 0), ("SSUSUSUSSSSS", 5), ("USUSSUSSSS", 0)):
+        scenarios.append(gen_steal_scenario(r, 2, layout=lay, chunk=chk))
     for i in range(8 if quick else 40):
         scenarios.append(gen_steal_scenario(r, r.choice([2, 2, 3])))
     # a few scenarios with sub-team leaders: oracle only (their runtime-internal watcher tasks are outside the model)
